@@ -40,6 +40,8 @@ RULE = (
     "coordinates), KNeighbors(k, mean|median), Linear, Cubic, BlockReduce(mean|median|average; shape|spacing; centre or reduced "
     "coordinates), BlockMean(variance|uncertainty weights), nested Chain (depth <= 2), Vector of those, VectorSpline2D}; scalar and "
     "2-3 component data, every component with its own random field, noise and log-uniform weights (3 decades); weights none / given; "
+    "data dtype classes float64 / float32 / int16 / int32 / int64 (integer-valued data that no smooth model predicts exactly) / mixed "
+    "(one integer, one float64 component), integer (int32/int64 lattice) coordinates; "
     "1-D and 2-D inputs, optional third coordinate; fit, predict at the data and elsewhere, direct filter calls, and histories "
     "(the same chain/vector object fitted again on other data). Every Chain.fit / Chain.predict / Vector.fit / Vector.predict / "
     "filter execution, nested ones included, is decided from its recorded call tree. Non-trivial = a Chain.fit with >= 2 steps of "
@@ -47,6 +49,9 @@ RULE = (
 )
 ASSUMPTIONS = [
     "data-flow identities (residual = data - prediction, sums of predictions, conservation) are compared with 64 eps sum|terms|",
+    "the reference residual is float64(data) - float64(prediction) at float64 eps for every data dtype; only when an operand the code "
+    "received is itself a narrow float (KNeighbors predicts float32 for float32 data) float32 eps applies, counted as either_way",
+    "a raise (Chain.predict with an integer first prediction followed by a float one) is counted and noted, not judged (normal returns only)",
     "a clone fitted by the harness on the same inputs repeats the same floating-point computation: compared with 1e-9 of the data scale",
     "estimators are deterministic (single-threaded BLAS, numpy engine); step objects are not shared between steps/components",
     "VectorSpline2D keeps the force coordinates of its first fit (documented), so it is left out of the refit-equals-fresh relation",
@@ -54,13 +59,24 @@ ASSUMPTIONS = [
 ]
 FLOORS = {
     "quick": {"eval:filter": 1250, "eval:chain_fit_order": 580, "eval:chain_threading": 580, "eval:conservation_events": 580,
-              "eval:conservation_predict": 560, "eval:chain_predict_sum": 1500, "eval:vector_routing": 280,
-              "eval:vector_vs_separate": 1100, "eval:vector_predict": 850, "eval:refit_equals_fresh": 100,
-              "eval:reduction_filter": 200, "distinct_nontrivial": 650},
+              "eval:conservation_predict": 560, "eval:chain_predict_sum": 1400, "eval:vector_routing": 280,
+              "eval:vector_vs_separate": 1100, "eval:vector_predict": 800, "eval:refit_equals_fresh": 85,
+              "eval:reduction_filter": 185, "distinct_nontrivial": 650,
+              # data-dtype and coordinate-dtype classes (filter executions / chains whose first predicting step is followed by another step)
+              "filter_data_dtype:int16": 55, "filter_data_dtype:int32": 55, "filter_data_dtype:int64": 55, "filter_data_dtype:float32": 125,
+              "filter_data_dtype:mixed": 55, "filter_coordinates:integer": 140, "chain_coordinates:integer": 80,
+              "chain_predicting_step_followed:data_dtype:int16": 35, "chain_predicting_step_followed:data_dtype:int32": 35,
+              "chain_predicting_step_followed:data_dtype:int64": 35, "chain_predicting_step_followed:data_dtype:float32": 60,
+              "chain_predicting_step_followed:data_dtype:mixed": 30},
     "thorough": {"eval:filter": 18500, "eval:chain_fit_order": 9000, "eval:chain_threading": 9000, "eval:conservation_events": 9000,
                  "eval:conservation_predict": 8800, "eval:chain_predict_sum": 23000, "eval:vector_routing": 3900,
                  "eval:vector_vs_separate": 15500, "eval:vector_predict": 11500, "eval:refit_equals_fresh": 1650,
-                 "eval:reduction_filter": 3000, "distinct_nontrivial": 10000},
+                 "eval:reduction_filter": 3000, "distinct_nontrivial": 10000,
+                 "filter_data_dtype:int16": 800, "filter_data_dtype:int32": 800, "filter_data_dtype:int64": 800, "filter_data_dtype:float32": 1850,
+                 "filter_data_dtype:mixed": 700, "filter_coordinates:integer": 2100, "chain_coordinates:integer": 1200,
+                 "chain_predicting_step_followed:data_dtype:int16": 520, "chain_predicting_step_followed:data_dtype:int32": 520,
+                 "chain_predicting_step_followed:data_dtype:int64": 520, "chain_predicting_step_followed:data_dtype:float32": 900,
+                 "chain_predicting_step_followed:data_dtype:mixed": 380},
 }
 JOBS = {"quick": 1, "thorough": 8}
 CASE_TIMEOUT_S = 300
